@@ -76,6 +76,8 @@ def main(argv):
         mod.teardown(S)
     if truncated:
         rep.cnt("shards_truncated_by_time_budget")
+    if sys.flags.optimize:
+        rep.cnt("cases_repeated_under_python_O", rep.evaluations)
     from . import contracts
     for k, v in contracts.snapshot_counts().items():
         rep.cnt(k, v)
